@@ -170,6 +170,16 @@ async fn run_scenario(sc: &Scenario, sink: &Sink) {
                     let _ = h.shutdown().await;
                 }
             }
+            "rx_race_shutdown" => {
+                // a peer that keeps requests continuously available, and a shutdown handed in at the same instant:
+                // the session must honour it while input is still pending, not after it has served everything
+                sink.emit(json!({"e":"rx","bytes":bytes_json(&step.bytes)}));
+                ioh.push(&step.bytes);
+                sink.emit(json!({"e":"cmd","kind":"shutdown_race"}));
+                if let Some(h) = handle.as_ref() {
+                    let _ = h.shutdown().await;
+                }
+            }
             "drop" => {
                 sink.emit(json!({"e":"cmd","kind":"drop"}));
                 handle = None;
